@@ -42,6 +42,8 @@ pub fn generate(_ctx: &mut Ctx, seed: u64, i: usize, max_blocks: usize) -> Case 
             if rng.chance(1, 2) { attrs += &format!(" name=\"n{made}\""); }
             if rng.chance(1, 3) { attrs += &format!(" note='{}'", ["x y", "é", "a=b", ""][rng.below(4)]); }
             if rng.chance(1, 4) { attrs += &format!(" severity=\"{}\"", ["warning", "info", "error", "Hint"][rng.below(4)]); }
+            // one scripted block in four carries a rule of a synchronous validator on the SAME tag (detected together)
+            if rng.chance(1, 4) { attrs += [" keep-sorted", " keep-unique", " line-count=\">=0\"", " line-count=\"<1\"", " keep-sorted=\"desc\""][rng.below(5)]; }
             if rng.chance(1, 3) {
                 let p = *rng.pick(PATTERNS);
                 attrs += &format!(" check-lua-pattern='{p}'");
